@@ -5,6 +5,7 @@ Model: Model/Fixed.lean ⇄ font-types/src/{fixed,int24,uint24,raw}.rs.
 -/
 import FontVerif.Model.Fixed
 import FontVerif.Lemmas.Round
+set_option linter.unusedVariables false
 namespace FontVerif.C15
 open FontVerif FontVerif.Fixed
 
